@@ -390,7 +390,7 @@ func (r *reconstructor) reconstructBinaryValue(
 
 			num := p.Num + 1
 
-			if num >= len(r.buffers) {
+			if num < 1 || num >= len(r.buffers) {
 				return errInvalidPlaceholderNumValue
 			}
 
@@ -480,10 +480,13 @@ func (r *reconstructor) reconstructMap(rv reflect.Value) error {
 					}
 
 					if pholder.Kind() == reflect.Bool && pholder.Bool() && num.Kind() == reflect.Float64 {
+						if f := num.Float(); f < 0 || f >= float64(len(r.buffers)) {
+							return errInvalidPlaceholderNumValue
+						}
 						n := int(num.Float())
 						n++
 
-						if n >= len(r.buffers) {
+						if n < 1 || n >= len(r.buffers) {
 							return errInvalidPlaceholderNumValue
 						}
 
@@ -504,10 +507,13 @@ func (r *reconstructor) reconstructMap(rv reflect.Value) error {
 					}
 
 					if pholder.Kind() == reflect.Bool && pholder.Bool() && num.Kind() == reflect.Float64 {
+						if f := num.Float(); f < 0 || f >= float64(len(r.buffers)) {
+							return errInvalidPlaceholderNumValue
+						}
 						n := int(num.Float())
 						n++
 
-						if n >= len(r.buffers) {
+						if n < 1 || n >= len(r.buffers) {
 							return errInvalidPlaceholderNumValue
 						}
 
